@@ -8,7 +8,7 @@ with the same comparator shape.
 Does not decide: chunking, duplicate handling, empty-side behaviour (value level)."""
 import re
 
-from tmpl import site, suffix, lost_witnesses, local_defs
+from tmpl import site, suffix, lost_witnesses, local_defs, int_counters, origin_locals
 from mir import operand_places
 
 JOINS = {
@@ -237,3 +237,36 @@ def run(ctx):
                                what='TopNExecutor bounds its heap by `limit` instead of `offset + limit`: with an OFFSET, rows that belong '
                                     'to the requested window are discarded (ORDER BY .. LIMIT n OFFSET m returns fewer rows than sort + limit)')
             ctx.floor(R6, n_cmp, 1, 'size comparisons in TopNExecutor that depend on limit')
+
+    R7 = 'C11-R7'
+    ctx.rule(R7, 'a running row position is advanced by the rows that were READ: a usize counter of an executor that later takes part in an '
+                 'index or a remainder (a position inside the cross product, a slot of a per-row table) is never incremented by the '
+                 'cardinality of a chunk that went through DataChunk::filter - the rows that PASSED. Mixing the two shifts every later '
+                 'position, e.g. which left row of a nested-loop left outer join a match is credited to')
+    n_cnt = 0
+    for b in prog.bodies.values():
+        if not re.match(r'^<?executor::', b.name) or b.rec.get('derived'):
+            continue
+        filt = {c.dest['l'] for c in b.calls if re.search(r'DataChunk::filter$|Array::filter$|ArrayImpl::filter$', c.fn or '')}
+        for cnt, (blocks, srcs) in int_counters(b).items():
+            n_cnt += 1
+            if not filt or not any(filt & origin_locals(b, s_, depth=10) for s_ in srcs):
+                continue
+            positional = []
+            for bb, st in b.stmts():
+                rv = st.get('rv', {}) if st['s'] == 'assign' else {}
+                if rv.get('rv') == 'binop' and rv['op'].startswith('Rem') and any(cnt in origin_locals(b, pl['l'], depth=6) for pl in operand_places(rv)):
+                    positional.append(bb)
+            for c in b.calls:
+                if re.search(r'ops::Index(Mut)?::index(_mut)?$', c.fn or '') and len(c.args) > 1 and c.args[1]['k'] != 'const' \
+                        and cnt in origin_locals(b, c.args[1]['pl']['l'], depth=6):
+                    positional.append(c.bb)
+            if positional:
+                ctx.functions_analysed.add(b.name)
+                ctx.ob(R7, f'{b.root}·{b.var_name(cnt) or cnt}·position-counts-filtered-rows', False,
+                       f'{b.name}: `{b.var_name(cnt)}` is advanced at {blocks} by the size of a filtered chunk and used as a position at {positional}',
+                       [site(b, blocks[0])],
+                       what=f'{b.root} advances the row position `{b.var_name(cnt)}` by the number of rows that passed the condition, not by the '
+                            'number evaluated: after the first non-matching pair every later match is credited to the wrong row')
+    ctx.ob(R7, 'executors·positions-count-read-rows', True, f'{n_cnt} usize counters in executor:: examined', nontrivial=False)
+    ctx.floor(R7, n_cnt, 4, 'usize counters in executor::')
